@@ -222,6 +222,8 @@ func c09Twins(env *fw.Env, idx int) fw.Result {
 	return c09RunWorld(env, r, w)
 }
 
+var c09Seq int
+
 func c09RunWorld(env *fw.Env, r *fw.Rand, w gen.World) fw.Result {
 	extrasByContent := map[int][]gen.NodeSpec{}
 	for i := range w.Remotes {
@@ -246,8 +248,12 @@ func c09RunWorld(env *fw.Env, r *fw.Rand, w gen.World) fw.Result {
 		res.Class = "not-fault-free"
 		return res
 	}
-	dir := filepath.Join(env.Scratch, "c09", "built")
-	dir2 := filepath.Join(env.Scratch, "c09", "extracted")
+	// successive bundles of one worker process live in different directories
+	// (at different depths): nothing about one bundle's location may stick
+	// to the next
+	c09Seq++
+	dir := filepath.Join(env.Scratch, "c09", []string{"built", "b2/built", "b3/deeper/built"}[c09Seq%3])
+	dir2 := filepath.Join(env.Scratch, "c09", []string{"extracted", "x2/extracted"}[c09Seq%2])
 	br := runBuild(&w, dir, buildOpts{})
 	if br.NewErr != nil {
 		return fw.Result{Verdict: fw.Inconclusive, Msg: br.NewErr.Error()}
